@@ -147,21 +147,24 @@ theorem lowerProp_charClass {us : Bool} {kind name : Nat} {cps : IvList}
             exact List.all_eq_true.1 tables_scx_wf _ (C11.scx_sound name _ hr)
 
 /-- Without `i`, `\p{…}` / `\P{…}` of the specification against the table (and its complement). -/
-theorem den_propEscape {rer : ES.RER} (hic : rer.ignoreCase = false) {us : Bool} {kind name : Nat} {cps : IvList}
-    (h : lowerProp us kind name = .ok (.charClass cps)) :
+theorem den_propEscape {rer : ES.RER} (hic : rer.unicodeSets = false ∨ rer.ignoreCase = false) {us : Bool}
+    {kind name : Nat} {cps : IvList} (h : lowerProp us kind name = .ok (.charClass cps)) :
     Den (ES.propEscape rer false kind name).chars cps ∧
       Den (ES.propEscape rer true kind name).chars (inverted cps) ∧
       (∀ neg, (ES.propEscape rer neg kind name).strs = []) := by
   obtain ⟨ivs, hl, rfl, hw⟩ := lowerProp_charClass h
+  have hmsf : ∀ A : ES.CharSet, ES.maybeSimpleCaseFolding rer A = A := by
+    intro A; rcases hic with h | h <;> simp [ES.maybeSimpleCaseFolding, h]
+  have hall : ∀ c, (ES.allCharacters rer).chars c = decide (c ≤ 0x10FFFF) := by
+    intro c; rcases hic with h | h <;> simp [ES.allCharacters, h]
   have hpos : Den (ES.propEscape rer false kind name).chars (ivsOfPairs ivs) := by
     refine (den_table hw).congr (fun c _ => ?_)
-    simp [ES.propEscape, ES.propCharSet, hl, ES.maybeSimpleCaseFolding, hic, ES.CharSet.ofIntervals, Packed.mem]
+    simp [ES.propEscape, ES.propCharSet, hl, hmsf, ES.CharSet.ofIntervals, Packed.mem]
   refine ⟨hpos, ?_, ?_⟩
   · refine (den_inverted hpos).congr (fun c _ => ?_)
-    simp [ES.propEscape, ES.characterComplement, ES.allCharacters, hic]
+    simp [ES.propEscape, ES.characterComplement, hall]
   · intro neg
     cases neg <;>
-      simp [ES.propEscape, ES.propCharSet, hl, ES.maybeSimpleCaseFolding, hic, ES.CharSet.ofIntervals,
-        ES.characterComplement]
+      simp [ES.propEscape, ES.propCharSet, hl, hmsf, ES.CharSet.ofIntervals, ES.characterComplement]
 
 end Regress.Lower
